@@ -78,6 +78,16 @@ def worker1(args):
             shutil.rmtree(td, ignore_errors=True)
             if wide:
                 break
+    if i % 11 == 5:
+        # more than 127 equivalence classes: yy_ec / yy_meta are arrays of unsigned char in the
+        # scanner while the file holds them as signed 8-bit or as 16-bit elements
+        nb = [150, 131, 200][(i // 11) % 3]
+        bs = list(range(48, 48 + nb))
+        case["rules"] = [{"scs": None, "bol": False, "pat": ("chr", b), "trail": None, "act": []}
+                         for b in bs]
+        case["defs"] = []
+        g.alpha = bytes(bs[::7] + bs[-9:]) + b"\n "
+        feat("many_classes:%d" % nb)
     if i % 11 == 2:
         # table entries exactly at an element-width boundary: with N user rules plus the
         # default rule the largest yy_accept entry (YY_END_OF_BUFFER) is N + 2; 126 rules
@@ -127,6 +137,8 @@ def worker1(args):
     case["opts"]["ledger"] = True
     ctx = gen.ctx_of(case)
     tb = TABLES[i % len(TABLES)]
+    if i % 11 == 5:
+        tb = ["-Ce", "", "-Cem", "-Cfe"][(i // 11) % 4]       # (representations that have yy_ec)
     full = "f" in tb or "F" in tb
     fl = ["nr", "r"][(i // 2) % 2]      # the c99 back end has no serialized tables (refused)
     flexargs = lib.tables_args(tb, 8)
@@ -251,7 +263,7 @@ def worker1(args):
                 else:
                     feat("concatenation_ok")
     # tables-verify
-    if i % 3 != 2:
+    if i % 3 != 2 or i % 11 == 5:
         cv = dict(cb)
         cv["opts"] = dict(cb["opts"])
         cv["opts"]["tables_verify"] = True
@@ -405,7 +417,7 @@ def run(pid, tier):
         chk.require("table:" + t)
     for k in ("width:1", "width:2", "width:4", "struct_table", "ptrans_table", "format_ok",
               "verify_pass", "verify_fail_detected", "concatenation_ok", "truncation_exhaustive_files",
-              "ledger_empty_after_destroy", "last_table_wide_and_unpadded"):
+              "ledger_empty_after_destroy", "last_table_wide_and_unpadded", "many_classes:150"):
         chk.require(k)
     chk.require("truncations", 300)
     chk.require("corruptions", 20)
